@@ -19,11 +19,21 @@ theorem sepLoop_frame : ∀ (r : Text) (st : SepSt) (acc : List Text) (q : Nat),
     have hpar : ((st.quotes + q) % 2 == 0) = (st.quotes % 2 == 0) := by
       have : (st.quotes + q) % 2 = st.quotes % 2 := by omega
       rw [this]
-    rw [hpar]
+    have hpar1 : ((st.quotes + q) % 2 == 1) = (st.quotes % 2 == 1) := by
+      have : (st.quotes + q) % 2 = st.quotes % 2 := by omega
+      rw [this]
+    rw [hpar, hpar1]
     split
     · have := ih { st with cur := [], rules := st.rules ++ [st.cur ++ [ch]] } acc q hq
       simp only [List.append_assoc] at this ⊢
       exact this
+    split
+    · have := ih { st with cur := st.cur ++ [ch], quotes := st.quotes + 1 } acc q hq
+      have e : st.quotes + 1 + q = st.quotes + q + 1 := by omega
+      simp only at this ⊢
+      rw [← e]; exact this
+    split
+    · exact ih { st with cur := st.cur ++ [ch] } acc q hq
     split
     · exact ih { st with cur := st.cur ++ [ch], round := st.round + 1 } acc q hq
     split
@@ -32,11 +42,6 @@ theorem sepLoop_frame : ∀ (r : Text) (st : SepSt) (acc : List Text) (q : Nat),
     · exact ih { st with cur := st.cur ++ [ch], round := st.round - 1 } acc q hq
     split
     · exact ih { st with cur := st.cur ++ [ch], square := st.square - 1 } acc q hq
-    split
-    · have := ih { st with cur := st.cur ++ [ch], quotes := st.quotes + 1 } acc q hq
-      have e : st.quotes + 1 + q = st.quotes + q + 1 := by omega
-      simp only at this ⊢
-      rw [← e]; exact this
     · exact ih { st with cur := st.cur ++ [ch] } acc q hq
 
 def notDigitHead (b : Text) : Prop := ∀ c, b.head? = some c → isDigit c = false
@@ -56,19 +61,8 @@ theorem sepLoop_append : ∀ (a b : Text) (st : SepSt), notDigitHead b →
         | cons d b' => simp [nextIsDigit]; exact hb d rfl
       | cons d a' => rfl
     simp only [List.cons_append, sepLoop, hdec]
-    split
-    · exact ih _ _ hb
-    split
-    · exact ih _ _ hb
-    split
-    · exact ih _ _ hb
-    split
-    · exact ih _ _ hb
-    split
-    · exact ih _ _ hb
-    split
-    · exact ih _ _ hb
-    · exact ih _ _ hb
+    repeat' split
+    all_goals exact ih _ _ hb
 
 
 
@@ -184,7 +178,9 @@ theorem joinLines_reject : ∀ (lines : List Text) (acc : Text),
 def stripScan : Text → StripSt → StripSt
   | [], st => st
   | ch :: rest, st =>
-    if ch == '(' then stripScan rest { st with round := st.round + 1, prev := ch }
+    if ch == '"' then stripScan rest { st with inQuotes := !st.inQuotes, prev := ch }
+    else if st.inQuotes then stripScan rest { st with prev := ch }
+    else if ch == '(' then stripScan rest { st with round := st.round + 1, prev := ch }
     else if ch == '[' then stripScan rest { st with square := st.square + 1, prev := ch }
     else if ch == ')' then stripScan rest { st with round := st.round - 1, prev := ch }
     else if ch == ']' then stripScan rest { st with square := st.square - 1, prev := ch }
@@ -199,15 +195,19 @@ theorem commentStart_append : ∀ (a b : Text) (i : Nat) (st : StripSt), comment
     intro b i st h
     simp only [List.cons_append, commentStart, stripScan, List.length_cons] at h ⊢
     split
-    · rename_i h1; simp only [h1, if_true] at h; rw [ih _ _ _ h]; congr 1; omega
+    · rename_i h0; simp only [h0, if_true] at h ⊢; rw [ih _ _ _ h]; congr 1; omega
     split
-    · rename_i h1 h2; simp only [h1, h2, if_true, Bool.false_eq_true, if_false] at h; rw [ih _ _ _ h]; congr 1; omega
+    · rename_i h0 hq; simp only [h0, hq, if_true, Bool.false_eq_true, if_false] at h ⊢; rw [ih _ _ _ h]; congr 1; omega
     split
-    · rename_i h1 h2 h3; simp only [h1, h2, h3, if_true, Bool.false_eq_true, if_false] at h; rw [ih _ _ _ h]; congr 1; omega
+    · rename_i h0 hq h1; simp only [h0, hq, h1, if_true, Bool.false_eq_true, if_false] at h ⊢; rw [ih _ _ _ h]; congr 1; omega
     split
-    · rename_i h1 h2 h3 h4; simp only [h1, h2, h3, h4, if_true, Bool.false_eq_true, if_false] at h; rw [ih _ _ _ h]; congr 1; omega
-    · rename_i h1 h2 h3 h4
-      simp only [h1, h2, h3, h4, Bool.false_eq_true, if_false] at h
+    · rename_i h0 hq h1 h2; simp only [h0, hq, h1, h2, if_true, Bool.false_eq_true, if_false] at h ⊢; rw [ih _ _ _ h]; congr 1; omega
+    split
+    · rename_i h0 hq h1 h2 h3; simp only [h0, hq, h1, h2, h3, if_true, Bool.false_eq_true, if_false] at h ⊢; rw [ih _ _ _ h]; congr 1; omega
+    split
+    · rename_i h0 hq h1 h2 h3 h4; simp only [h0, hq, h1, h2, h3, h4, if_true, Bool.false_eq_true, if_false] at h ⊢; rw [ih _ _ _ h]; congr 1; omega
+    · rename_i h0 hq h1 h2 h3 h4
+      simp only [h0, hq, h1, h2, h3, h4, Bool.false_eq_true, if_false] at h ⊢
       by_cases hd : (st.round == 0 && st.square == 0) = true
       · simp only [hd, if_true] at h ⊢
         by_cases hc : (ch == '#' || ch == '%') = true
@@ -222,27 +222,37 @@ theorem commentStart_append : ∀ (a b : Text) (i : Nat) (st : StripSt), comment
 
 
 theorem ws_not_special {c : Char} (h : isWs c = true) :
-    c ≠ '(' ∧ c ≠ ')' ∧ c ≠ '[' ∧ c ≠ ']' ∧ c ≠ '#' ∧ c ≠ '%' ∧ c ≠ '/' := by
-  refine ⟨?_, ?_, ?_, ?_, ?_, ?_, ?_⟩ <;> (intro he; subst he; revert h; decide)
+    c ≠ '(' ∧ c ≠ ')' ∧ c ≠ '[' ∧ c ≠ ']' ∧ c ≠ '#' ∧ c ≠ '%' ∧ c ≠ '/' ∧ c ≠ '"' := by
+  refine ⟨?_, ?_, ?_, ?_, ?_, ?_, ?_, ?_⟩ <;> (intro he; subst he; revert h; decide)
 
 /-- blanks are never a comment and never change the bracket depths -/
 theorem commentStart_ws : ∀ (w : Text) (i : Nat) (st : StripSt), (∀ c ∈ w, isWs c = true) →
     commentStart w i st = none ∧ (stripScan w st).round = st.round ∧ (stripScan w st).square = st.square ∧
-    (stripScan w st).prev = (w.getLast?.getD st.prev) := by
+    (stripScan w st).prev = (w.getLast?.getD st.prev) ∧ (stripScan w st).inQuotes = st.inQuotes := by
   intro w
   induction w with
   | nil => intro i st _; simp [commentStart, stripScan]
   | cons c w ih =>
     intro i st h
-    obtain ⟨h1, h2, h3, h4, h5, h6, h7⟩ := ws_not_special (h c (by simp))
+    obtain ⟨h1, h2, h3, h4, h5, h6, h7, h8⟩ := ws_not_special (h c (by simp))
     have := ih (i + 1) { st with prev := c } (fun x hx => h x (by simp [hx]))
     simp only [commentStart, stripScan, show (c == '(') = false from by simpa using h1, show (c == '[') = false from by simpa using h3,
       show (c == ')') = false from by simpa using h2, show (c == ']') = false from by simpa using h4,
       show (c == '#') = false from by simpa using h5, show (c == '%') = false from by simpa using h6,
-      show (c == '/') = false from by simpa using h7, Bool.false_eq_true, if_false, Bool.or_self, Bool.false_and]
-    refine ⟨?_, this.2.1, this.2.2.1, ?_⟩
-    · split <;> exact this.1
-    · rw [this.2.2.2]
+      show (c == '/') = false from by simpa using h7, show (c == '"') = false from by simpa using h8,
+      Bool.false_eq_true, if_false, Bool.or_self, Bool.false_and]
+    have hcs : (if st.inQuotes = true then commentStart w (i + 1) { st with prev := c }
+        else if (st.round == 0 && st.square == 0) = true then commentStart w (i + 1) { st with prev := c }
+        else commentStart w (i + 1) { st with prev := c }) = none := by
+      split
+      · exact this.1
+      · split <;> exact this.1
+    have hss : (if st.inQuotes = true then stripScan w { st with prev := c } else stripScan w { st with prev := c }) =
+        stripScan w { st with prev := c } := by split <;> rfl
+    refine ⟨hcs, ?_, ?_, ?_, ?_⟩
+    · rw [hss]; exact this.2.1
+    · rw [hss]; exact this.2.2.1
+    · rw [hss, this.2.2.2.1]
       cases w with
       | nil => simp
       | cons a b =>
@@ -252,27 +262,33 @@ theorem commentStart_ws : ∀ (w : Text) (i : Nat) (st : StripSt), (∀ c ∈ w,
           | some z => exact ⟨z, rfl⟩
         obtain ⟨z, hz⟩ := this
         simp [List.getLast?_cons_cons, hz]
+    · rw [hss]; exact this.2.2.2.2
 
 /-- whether a comment is found does not depend on the starting index, nor on the previous character
     except through "is it a slash" -/
 theorem commentStart_none_indep : ∀ (p : Text) (i j : Nat) (st st' : StripSt), st.round = st'.round → st.square = st'.square →
-    (st.prev = '/' ↔ st'.prev = '/') → commentStart p i st = none → commentStart p j st' = none := by
+    st.inQuotes = st'.inQuotes → (st.prev = '/' ↔ st'.prev = '/') → commentStart p i st = none → commentStart p j st' = none := by
   intro p
   induction p with
   | nil => intros; simp [commentStart]
   | cons ch p ih =>
-    intro i j st st' hr hs hp h
+    intro i j st st' hr hs hq hp h
     simp only [commentStart] at h ⊢
+    rw [← hq]
     split
-    · rename_i h1; simp only [h1, if_true] at h; exact ih _ _ _ _ (by simp [hr]) (by simp [hs]) (by simp) h
+    · rename_i h0; simp only [h0, if_true] at h; exact ih _ _ _ _ (by simp [hr]) (by simp [hs]) (by simp_all) (by simp) h
     split
-    · rename_i h1 h2; simp only [h1, h2, if_true, Bool.false_eq_true, if_false] at h; exact ih _ _ _ _ (by simp [hr]) (by simp [hs]) (by simp) h
+    · rename_i h0 hq'; simp only [h0, hq', if_true, Bool.false_eq_true, if_false] at h; exact ih _ _ _ _ (by simp [hr]) (by simp [hs]) (by simp_all) (by simp) h
     split
-    · rename_i h1 h2 h3; simp only [h1, h2, h3, if_true, Bool.false_eq_true, if_false] at h; exact ih _ _ _ _ (by simp [hr]) (by simp [hs]) (by simp) h
+    · rename_i h0 hq' h1; simp only [h0, hq', h1, if_true, Bool.false_eq_true, if_false] at h; exact ih _ _ _ _ (by simp [hr]) (by simp [hs]) (by simp_all) (by simp) h
     split
-    · rename_i h1 h2 h3 h4; simp only [h1, h2, h3, h4, if_true, Bool.false_eq_true, if_false] at h; exact ih _ _ _ _ (by simp [hr]) (by simp [hs]) (by simp) h
-    · rename_i h1 h2 h3 h4
-      simp only [h1, h2, h3, h4, Bool.false_eq_true, if_false] at h
+    · rename_i h0 hq' h1 h2; simp only [h0, hq', h1, h2, if_true, Bool.false_eq_true, if_false] at h; exact ih _ _ _ _ (by simp [hr]) (by simp [hs]) (by simp_all) (by simp) h
+    split
+    · rename_i h0 hq' h1 h2 h3; simp only [h0, hq', h1, h2, h3, if_true, Bool.false_eq_true, if_false] at h; exact ih _ _ _ _ (by simp [hr]) (by simp [hs]) (by simp_all) (by simp) h
+    split
+    · rename_i h0 hq' h1 h2 h3 h4; simp only [h0, hq', h1, h2, h3, h4, if_true, Bool.false_eq_true, if_false] at h; exact ih _ _ _ _ (by simp [hr]) (by simp [hs]) (by simp_all) (by simp) h
+    · rename_i h0 hq' h1 h2 h3 h4
+      simp only [h0, hq', h1, h2, h3, h4, Bool.false_eq_true, if_false] at h
       rw [← hr, ← hs]
       by_cases hd : (st.round == 0 && st.square == 0) = true
       · simp only [hd, if_true] at h ⊢
@@ -289,9 +305,9 @@ theorem commentStart_none_indep : ∀ (p : Text) (i j : Nat) (st st' : StripSt),
                 have : ¬ st'.prev = '/' := fun h' => this (hp.mpr h')
                 simp [this]
             simp only [hc, hsl, hsl', Bool.false_eq_true, if_false] at h ⊢
-            exact ih _ _ _ _ (by simp [hr]) (by simp [hs]) (by simp) h
+            exact ih _ _ _ _ (by simp [hr]) (by simp [hs]) (by simp_all) (by simp) h
       · simp only [hd, Bool.false_eq_true, if_false] at h ⊢
-        exact ih _ _ _ _ (by simp [hr]) (by simp [hs]) (by simp) h
+        exact ih _ _ _ _ (by simp [hr]) (by simp [hs]) (by simp_all) (by simp) h
 
 
 
@@ -306,44 +322,56 @@ theorem getLast_cons_getD (ch : Char) (p : Text) (d : Char) : (ch :: p).getLast?
     obtain ⟨z, hz⟩ := this
     simp [List.getLast?_cons_cons, hz]
 
-theorem stripScan_rel : ∀ (p : Text) (st st' : StripSt),
+theorem stripScan_rel : ∀ (p : Text) (st st' : StripSt), st.inQuotes = st'.inQuotes →
     (stripScan p st).round = st.round + ((stripScan p st').round - st'.round) ∧
     (stripScan p st).square = st.square + ((stripScan p st').square - st'.square) ∧
-    (stripScan p st).prev = p.getLast?.getD st.prev := by
+    (stripScan p st).prev = p.getLast?.getD st.prev ∧
+    (stripScan p st).inQuotes = (stripScan p st').inQuotes := by
   intro p
   induction p with
-  | nil => intro st st'; simp [stripScan]
+  | nil => intro st st' hq; simp [stripScan, hq]
   | cons ch p ih =>
-    intro st st'
+    intro st st' hq
+    obtain ⟨pv, rd, sq, iq⟩ := st'
+    simp only at hq
+    subst hq
     simp only [stripScan, getLast_cons_getD]
     split
-    · have a := ih { st with round := st.round + 1, prev := ch } { st' with round := st'.round + 1, prev := ch }
+    · have a := ih { st with inQuotes := !st.inQuotes, prev := ch } ⟨ch, rd, sq, !st.inQuotes⟩ rfl
       simp only at a
-      exact ⟨by omega, by omega, a.2.2⟩
+      exact ⟨by omega, by omega, a.2.2.1, a.2.2.2⟩
     split
-    · have a := ih { st with square := st.square + 1, prev := ch } { st' with square := st'.square + 1, prev := ch }
+    · have a := ih { st with prev := ch } ⟨ch, rd, sq, st.inQuotes⟩ rfl
       simp only at a
-      exact ⟨by omega, by omega, a.2.2⟩
+      exact ⟨by omega, by omega, a.2.2.1, a.2.2.2⟩
     split
-    · have a := ih { st with round := st.round - 1, prev := ch } { st' with round := st'.round - 1, prev := ch }
+    · have a := ih { st with round := st.round + 1, prev := ch } ⟨ch, rd + 1, sq, st.inQuotes⟩ rfl
       simp only at a
-      exact ⟨by omega, by omega, a.2.2⟩
+      exact ⟨by omega, by omega, a.2.2.1, a.2.2.2⟩
     split
-    · have a := ih { st with square := st.square - 1, prev := ch } { st' with square := st'.square - 1, prev := ch }
+    · have a := ih { st with square := st.square + 1, prev := ch } ⟨ch, rd, sq + 1, st.inQuotes⟩ rfl
       simp only at a
-      exact ⟨by omega, by omega, a.2.2⟩
-    · have a := ih { st with prev := ch } { st' with prev := ch }
+      exact ⟨by omega, by omega, a.2.2.1, a.2.2.2⟩
+    split
+    · have a := ih { st with round := st.round - 1, prev := ch } ⟨ch, rd - 1, sq, st.inQuotes⟩ rfl
       simp only at a
-      exact ⟨by omega, by omega, a.2.2⟩
+      exact ⟨by omega, by omega, a.2.2.1, a.2.2.2⟩
+    split
+    · have a := ih { st with square := st.square - 1, prev := ch } ⟨ch, rd, sq - 1, st.inQuotes⟩ rfl
+      simp only at a
+      exact ⟨by omega, by omega, a.2.2.1, a.2.2.2⟩
+    · have a := ih { st with prev := ch } ⟨ch, rd, sq, st.inQuotes⟩ rfl
+      simp only at a
+      exact ⟨by omega, by omega, a.2.2.1, a.2.2.2⟩
 
 /-- a piece of a rule as it stands on one line: not blank at either end, no comment character outside
-    brackets, brackets closed, not ending in a slash -/
+    brackets and quotes, brackets and quotes closed, not ending in a slash -/
 structure CleanPiece (p : Text) : Prop where
   ne : p ≠ []
   first : ∀ a, p.head? = some a → isWs a = false
   last : ∀ a, p.getLast? = some a → isWs a = false ∧ a ≠ '/'
   noComment : commentStart p 0 {} = none
-  closed : (stripScan p {}).round = 0 ∧ (stripScan p {}).square = 0
+  closed : (stripScan p {}).round = 0 ∧ (stripScan p {}).square = 0 ∧ (stripScan p {}).inQuotes = false
 
 /-- what may follow a piece on its line: nothing, or a comment introduced by `#`, `%` or `//` -/
 def IsComment (c : Text) : Prop :=
@@ -382,16 +410,16 @@ theorem stripComments_line {p indent trail comment : Text} (hp : CleanPiece p)
   have s1 := commentStart_ws indent 0 {} hi
   -- scan the piece
   have hprev1 : (stripScan indent {}).prev ≠ '/' := by
-    rw [s1.2.2.2]
+    rw [s1.2.2.2.1]
     cases hl : indent.getLast? with
     | none => simp
-    | some z => simp; exact (ws_not_special (hi z (List.mem_of_getLast? hl))).2.2.2.2.2.2
+    | some z => simp; exact (ws_not_special (hi z (List.mem_of_getLast? hl))).2.2.2.2.2.2.1
   have s2 : commentStart p (0 + indent.length) (stripScan indent {}) = none :=
-    commentStart_none_indep p 0 _ {} _ (by rw [s1.2.1]) (by rw [s1.2.2.1])
+    commentStart_none_indep p 0 _ {} _ (by rw [s1.2.1]) (by rw [s1.2.2.1]) (by rw [s1.2.2.2.2])
       (by constructor
           · intro h; exact absurd h (by decide : ¬ ({} : StripSt).prev = '/')
           · intro h; exact absurd h hprev1) hp.noComment
-  have r2 := stripScan_rel p (stripScan indent {}) {}
+  have r2 := stripScan_rel p (stripScan indent {}) {} s1.2.2.2.2
   have hlastp : ∃ z, p.getLast? = some z := by
     cases hl : p.getLast? with
     | none => simp [List.getLast?_eq_none_iff] at hl; exact absurd hl hp.ne
@@ -399,13 +427,14 @@ theorem stripComments_line {p indent trail comment : Text} (hp : CleanPiece p)
   obtain ⟨z, hz⟩ := hlastp
   -- scan the blanks after the piece
   have s3 := commentStart_ws trail (0 + indent.length + p.length) (stripScan p (stripScan indent {})) ht
-  have hdepth : (stripScan trail (stripScan p (stripScan indent {}))).round = 0 ∧ (stripScan trail (stripScan p (stripScan indent {}))).square = 0 := by
-    rw [s3.2.1, s3.2.2.1, r2.1, r2.2.1, s1.2.1, s1.2.2.1, hp.closed.1, hp.closed.2]; simp
+  have hdepth : (stripScan trail (stripScan p (stripScan indent {}))).round = 0 ∧ (stripScan trail (stripScan p (stripScan indent {}))).square = 0 ∧
+      (stripScan trail (stripScan p (stripScan indent {}))).inQuotes = false := by
+    rw [s3.2.1, s3.2.2.1, s3.2.2.2.2, r2.1, r2.2.1, r2.2.2.2, s1.2.1, s1.2.2.1, hp.closed.1, hp.closed.2.1, hp.closed.2.2]; simp
   have hprev3 : (stripScan trail (stripScan p (stripScan indent {}))).prev ≠ '/' := by
-    rw [s3.2.2.2, r2.2.2, hz]
+    rw [s3.2.2.2.1, r2.2.2.1, hz]
     cases hl : trail.getLast? with
     | none => simp; exact (hp.last z hz).2
-    | some y => simp; exact (ws_not_special (ht y (List.mem_of_getLast? hl))).2.2.2.2.2.2
+    | some y => simp; exact (ws_not_special (ht y (List.mem_of_getLast? hl))).2.2.2.2.2.2.1
   -- put the three scans together
   have hscan : ∀ rest, commentStart (indent ++ p ++ trail ++ rest) 0 {} =
       commentStart rest (indent.length + p.length + trail.length) (stripScan trail (stripScan p (stripScan indent {}))) := by
@@ -417,20 +446,20 @@ theorem stripComments_line {p indent trail comment : Text} (hp : CleanPiece p)
   rcases hc with rfl | ⟨r, rfl⟩ | ⟨r, rfl⟩ | ⟨r, rfl⟩
   · rw [hscan []]; simp only [commentStart, List.append_nil]; exact trim_pad hp hi ht
   · rw [hscan]
-    simp only [commentStart, hdepth.1, hdepth.2, show (('#' : Char) == '(') = false from by decide, show (('#' : Char) == '[') = false from by decide,
+    simp only [commentStart, hdepth.1, hdepth.2.1, hdepth.2.2, show (('#' : Char) == '"') = false from by decide, show (('#' : Char) == '(') = false from by decide, show (('#' : Char) == '[') = false from by decide,
       show (('#' : Char) == ')') = false from by decide, show (('#' : Char) == ']') = false from by decide, Bool.false_eq_true, if_false,
       show ((0:Int) == 0 && (0:Int) == 0) = true from rfl, if_true, show (('#' : Char) == '#' || ('#' : Char) == '%') = true from by decide]
     rw [show indent ++ p ++ trail ++ '#' :: r = (indent ++ p ++ trail) ++ '#' :: r from rfl, List.take_left' (by simp; omega)]
     exact trim_pad hp hi ht
   · rw [hscan]
-    simp only [commentStart, hdepth.1, hdepth.2, show (('%' : Char) == '(') = false from by decide, show (('%' : Char) == '[') = false from by decide,
+    simp only [commentStart, hdepth.1, hdepth.2.1, hdepth.2.2, show (('%' : Char) == '"') = false from by decide, show (('%' : Char) == '(') = false from by decide, show (('%' : Char) == '[') = false from by decide,
       show (('%' : Char) == ')') = false from by decide, show (('%' : Char) == ']') = false from by decide, Bool.false_eq_true, if_false,
       show ((0:Int) == 0 && (0:Int) == 0) = true from rfl, if_true, show (('%' : Char) == '#' || ('%' : Char) == '%') = true from by decide]
     rw [show indent ++ p ++ trail ++ '%' :: r = (indent ++ p ++ trail) ++ '%' :: r from rfl, List.take_left' (by simp; omega)]
     exact trim_pad hp hi ht
   · rw [hscan]
     have hne : ((stripScan trail (stripScan p (stripScan indent {}))).prev == '/') = false := by simpa using hprev3
-    simp only [commentStart, hdepth.1, hdepth.2, show (('/' : Char) == '(') = false from by decide, show (('/' : Char) == '[') = false from by decide,
+    simp only [commentStart, hdepth.1, hdepth.2.1, hdepth.2.2, show (('/' : Char) == '"') = false from by decide, show (('/' : Char) == '(') = false from by decide, show (('/' : Char) == '[') = false from by decide,
       show (('/' : Char) == ')') = false from by decide, show (('/' : Char) == ']') = false from by decide, Bool.false_eq_true, if_false,
       show ((0:Int) == 0 && (0:Int) == 0) = true from rfl, if_true, show (('/' : Char) == '#' || ('/' : Char) == '%') = false from by decide,
       show (('/' : Char) == '/') = true from by decide, Bool.true_and, hne]
